@@ -11,7 +11,7 @@ FRESH_PROCESS = True
 CASE_TIMEOUT = "60s"
 RULE = ("projects of 1-5 conventional classes whose method and constructor bodies (0-8 statements: declarations, "
         "assignments, if/for/while/switch/try/return) contain unqualified, this-, field-, parameter-, local-, static- "
-        "and chained invocations, `new` expressions and lambdas at random columns (several per line, one token per "
+        "(also written this.field.m()) and chained invocations, `new` expressions and lambdas at random columns (several per line, one token per "
         "line, whole class on one line), receivers declared as fields / parameters / locals at earlier points, names "
         "reused with different types across methods and files; non-trivial = a body with at least 2 calls; "
         "distinct = distinct input"
@@ -57,7 +57,10 @@ def cases(seed, tier):
     for i in range(n):
         rng = vlib.rng_for(seed, ID, "project", i)
         facts, texts, exps = gen(rng)
-        out.append({"name": "project-%d" % i, "tags": ["project"], "input": [facts, exps], "texts": texts})
+        tags = ["project"]
+        if any(len(cl) > 6 for e in exps for fn in e[3] for cl in fn[3]):
+            tags.append("this_field_receiver")       # a call through a field written with its qualifier: this.repo.save()
+        out.append({"name": "project-%d" % i, "tags": tags, "input": [facts, exps], "texts": texts})
     return out
 
 pretty = C01.pretty
